@@ -401,3 +401,87 @@ FS_REGISTRATION = FSpec("FundamentalPriceShock.hook_registration", post=fs_reg_p
 def t_fs_registration():
     obl, info = FS_REGISTRATION.verify()
     return {"obligations": obl, "info": [info]}
+
+
+# ----------------------------------------------------------------------------- event set-up from the configuration (C14: the trigger window is counted from the start of the event's session)
+def _shas(st, d, k):
+    return z3.Select(st.dict_dom(d), z3.StringVal(k))
+
+
+def _sget(st, d, k):
+    return z3.Select(st.dict_val(d), z3.StringVal(k))
+
+
+def shock_setup_spec(qual, required, optional_int, with_name_check):
+    """required: [(key, field, kind)] with kind in int / float / any; `enabled` optional; target -> name2market[target]"""
+    def pre(st, a):
+        s = a["settings"]
+        return [("the target, if given, is a string", z3.Implies(_shas(st, s, "target"), dyn_is_str(_sget(st, s, "target")))),
+                ("`enabled`, if given, is a boolean", z3.Implies(_shas(st, s, "enabled"), dyn_is_bool(_sget(st, s, "enabled")))),
+                ("a float-valued rate is a JSON number", z3.Implies(_shas(st, s, "priceChangeRate"), z3.Or(dyn_is_real(_sget(st, s, "priceChangeRate")), dyn_is_int(_sget(st, s, "priceChangeRate")))))] + \
+               ([] if with_name_check else [("the target names a registered market (this event does not check it itself)",
+                                             z3.Implies(_shas(st, s, "target"), z3.Select(st.dict_dom(st.read(st.read(a["self"], "simulator"), "name2market")), dyn_str(_sget(st, s, "target")))))])
+
+    def invalid(st, a):
+        s = a["settings"]; ev = a["self"]
+        n2m = st.read(st.read(ev, "simulator"), "name2market")
+        isint = lambda v: z3.Or(dyn_is_int(v), dyn_is_bool(v))          # isinstance(x, int) accepts bool
+        bad = [z3.Not(_shas(st, s, "target")), z3.Not(_shas(st, s, "triggerTime")), z3.Not(isint(_sget(st, s, "triggerTime")))]
+        for key, fld, kind in required:
+            bad.append(z3.Not(_shas(st, s, key)))
+            if kind == "int":
+                bad.append(z3.Not(isint(_sget(st, s, key))))
+            if kind == "float":
+                bad.append(z3.Not(dyn_is_real(_sget(st, s, key))))
+        for key, fld in optional_int:
+            bad.append(z3.And(_shas(st, s, key), z3.Not(isint(_sget(st, s, key)))))
+        if with_name_check:
+            bad.append(z3.Not(z3.Select(st.dict_dom(n2m), dyn_str(_sget(st, s, "target")))))
+        if qual.startswith("FundamentalPriceShock"):
+            bad.append(_shas(st, s, "triggerDays"))
+        return z3.Or(*bad)
+
+    def post(st0, st1, a, res):
+        s = a["settings"]; ev = a["self"]
+        ses = st0.read(ev, "session")
+        n2m = st0.read(st0.read(ev, "simulator"), "name2market")
+        out = [("C14 the trigger time is counted from the start of the event's own session: trigger_time = session_start_time + triggerTime",
+                st1.read(ev, "trigger_time").term == st0.read(ses, "session_start_time").term + dyn_int(_sget(st0, s, "triggerTime"))),
+               ("C14 the target is the market registered under the configured name", st1.read(ev, "target_market").term == z3.Select(st0.dict_val(n2m), dyn_str(_sget(st0, s, "target")))),
+               ("`enabled` is taken from the configuration when given, else left as it was",
+                st1.read(ev, "is_enabled").term == z3.If(_shas(st0, s, "enabled"), dyn_bool(_sget(st0, s, "enabled")), st0.read(ev, "is_enabled").term))]
+        for key, fld, kind in required:
+            v = _sget(st0, s, key)
+            f1 = st1.read(ev, fld)
+            want = dyn_int(v) if kind == "int" else (z3.If(dyn_is_int(v), z3.ToReal(dyn_int(v)), dyn_real(v)))
+            out.append((f"C14 {fld} is the configured {key}", (f1.term == want) if kind == "int" else (to_real(f1) == want)))
+        for key, fld in optional_int:
+            out.append((f"{fld} is the configured {key} when given, else left as it was", st1.read(ev, fld).term == z3.If(_shas(st0, s, key), dyn_int(_sget(st0, s, key)), st0.read(ev, fld).term)))
+        return out
+    cls = qual.split(".")[0]
+    fields = ["trigger_time", "target_market", "is_enabled", "target_market_name"] + [f for _k, f, _kind in required] + [f for _k, f in optional_int]
+    spec = FSpec(qual, pre=pre, post=post, raises={"ValueError": invalid}, props=("C14",), param_types={"settings": ("dict", ("str",), ("dyn",))},
+                 modifies=lambda st, a: [("f:" + field_owner_name(cls, f) + "." + f, [a["self"].term]) for f in fields if has_field(cls, f)])
+
+    def build():
+        obl, info = spec.verify()
+        return {"obligations": obl, "info": [info]}
+    build.__doc__ = qual + ": every configured parameter is stored as given; the trigger time is relative to the event's session"
+    task(qual, props=["C14"], functions=[qual], replay="events")(build)
+    return spec
+
+
+def has_field(cls, f):
+    try:
+        field_type(cls, f)
+        return True
+    except Exception:      # noqa
+        return False
+
+
+def field_owner_name(cls, f):
+    return field_owner(cls, f)
+
+
+FSHOCK_SETUP = shock_setup_spec("FundamentalPriceShock.setup", [("priceChangeRate", "price_change_rate", "any")], [("shockTimeLength", "shock_time_length")], False)
+MISTAKE_SETUP = shock_setup_spec("OrderMistakeShock.setup", [("priceChangeRate", "price_change_rate", "float"), ("orderVolume", "order_volume", "int"), ("orderTimeLength", "order_time_length", "int")], [], True)
